@@ -15,7 +15,7 @@ CHECKS = {
          "Statement read permissively (case-insensitive names, any source from port 5353, QR/opcode/rcode not matching attributes); head-of-line blocking behind an unreachable server is counted, not flagged (time stays bounded).",
          "DESIGN.md 3/C19"),
  "C01": ("model-based PBT over a simulated two-node world with generated per-frame fault schedule (stream-prefix oracle)",
-         "Two real smoltcp endpoints (buffers 1..262144, MTU from the minimum, CC none/Reno/CUBIC, delayed ACK/Nagle/timestamps, ISNs steered to wrap points, IPv4/IPv6, raw-IP/Ethernet) exchange PRF streams in both directions over a link that drops/duplicates/delays/reorders/bit-flips for the whole run; at every recv the bytes received must be a prefix of what the peer wrote so far, Finished only after everything written before close. Random exploration of fault schedules and configurations; capped at 20000 events per case.",
+         "Two real smoltcp endpoints (buffers 1..262144, MTU from the minimum, CC none/Reno/CUBIC, delayed ACK/Nagle/timestamps, ISNs steered to wrap points, IPv4/IPv6, raw-IP/Ethernet) exchange PRF streams in both directions over a link that drops/duplicates/delays/reorders/bit-flips for the whole run; at every recv the bytes received must be a prefix of what the peer wrote so far, Finished only after everything written before close. Random exploration of fault schedules and configurations; capped at 20000 events per case. In 1 of 4 worlds both applications first abort a connection after 100-500 events under faults and start over on the same socket objects (streams re-keyed): nothing of the old connection may show.",
          "Bit flips confined to regions where the Internet checksum guarantees detection; PRF stream contents; virtual time owned by the harness.",
          "DESIGN.md 3/C01"),
  "C02": ("invariant + deadlock/livelock detection in a closed simulated world driven only by poll_at, frame arrival and API calls",
@@ -27,11 +27,11 @@ CHECKS = {
          "Application misuse that smoltcp documents as a panic (IP version mismatch on send) is kept out of the generators; DHCP events are observed but not applied so the IPv4 address stays static; the probe uses the link-local/IPv4 address because SLAAC may legitimately remove a global one; a poll that consumes more than 10 s of CPU time without returning is a violation (CPU-time watchdog, vkit::hang); wall-clock stalls without CPU consumption are exit 2, never a violation.",
          "DESIGN.md 3/C03"),
  "C04": ("model-based PBT: scripted TCP peer vs reference receiver, independent TCP codec",
-         "One socket is fed up to 200 generated segments placed around its advertised window by a scripted peer owning a fixed stream; a reference receiver built from the delivered segments and the windows read off the socket's own output checks: delivered bytes = stream prefix, no byte delivered that never arrived below the advertised edge, ACK never covers unreceived bytes/FIN, Finished only after all data, advertised edge within buffer, nothing sent beyond the peer's FIN is ever delivered or acknowledged. Exploration by random search with boundary-biased generators; no exhaustiveness claimed.",
+         "One socket is fed up to 200 generated segments placed around its advertised window by a scripted peer owning a fixed stream; a reference receiver built from the delivered segments and the windows read off the socket's own output checks: delivered bytes = stream prefix, no byte delivered that never arrived below the advertised edge, ACK never covers unreceived bytes/FIN, Finished only after all data, advertised edge within buffer, nothing sent beyond the peer's FIN is ever delivered or acknowledged. In 1 of 4 cases the socket first carries a complete earlier connection in which the peer parks an out-of-order island and then resets (socket reuse). Exploration by random search with boundary-biased generators; no exhaustiveness claimed.",
          "Trusts vkit::indep TCP/IP codec; 'arrived in window' is a necessary condition only; peer never resets.",
          "DESIGN.md 3/C04"),
  "C05": ("invariant-over-history PBT: scripted TCP peer, every emitted segment checked by independent decoder",
-         "The application writes a PRF stream and closes while a scripted peer delivers generated ACK/window schedules (stale, shrinking, zero, duplicate x3, silence until RTO) with drawn MSS/window-scale/timestamp options; each emitted segment is checked against the window and MSS delivered so far, the written bytes (also when retransmitted), contiguity, FIN placement and SYN/scaled window fields. Random exploration; 5 hand-made sender mutants are killed by the quick tier.",
+         "The application writes a PRF stream and closes while a scripted peer delivers generated ACK/window schedules (stale, shrinking, zero, duplicate x3, silence until RTO) with drawn MSS/window-scale/timestamp options; each emitted segment is checked against the window and MSS delivered so far, the written bytes (also when retransmitted), contiguity, FIN placement and SYN/scaled window fields. In 1 of 4 passive opens an earlier connection attempt with other MSS / window-scale / timestamp / SACK options is answered and then reset by the peer. Random exploration; 5 hand-made sender mutants are killed by the quick tier.",
          "Trusts vkit::indep codec; peer segments restricted to those whose acceptability is unambiguous so that the learned window is known exactly; keep-alive disabled; MSS<48 clamp accepted as documented design.",
          "DESIGN.md 3/C05"),
  "C06": ("round-trip PBT per Repr type (emit->parse identity, parse->emit->parse idempotence, buffer-independence) + exhaustive sweeps of small spaces",
@@ -43,7 +43,7 @@ CHECKS = {
          "Accessor-applicability table follows the accessors' docs and smoltcp's own callers; safe Rust turns out-of-buffer reads into panics; RPL/IPsec views not compiled in.",
          "DESIGN.md 3/C07"),
  "C08": ("differential PBT vs independent RFC 1071 implementation (exhaustive over length x alignment) + metamorphic corruption of received packets + independent verification of emitted frames",
-         "(a) wire::checksum::data/combine/pseudo_header against an independent implementation on every length 0..=2048 (quick) / 0..=65535 (thorough) x alignment 0..7 x content classes incl. single-octet position weights, plus random buffers; (b) every frame emitted in the other simulation scenarios verified by the independent decoder (checksum verdicts); (c) valid packets for bound UDP/TCP/ICMP sockets with 1-2 bits flipped in a checksummed region or a zero UDP checksum, under drawn ChecksumCapabilities: when the independent verifier finds the checksum invalid and rx verification is on, no socket state/queue may change and nothing may be emitted.",
+         "(a) wire::checksum::data/combine/pseudo_header against an independent implementation on every length 0..=2048 (quick) / 0..=65535 (thorough) x alignment 0..7 x content classes incl. single-octet position weights, plus random buffers; (b) every frame emitted in the other simulation scenarios verified by the independent decoder (checksum verdicts); (c) valid packets for bound UDP/TCP/ICMP sockets with 1-2 bits flipped in a checksummed region or a zero UDP checksum, under drawn ChecksumCapabilities: when the independent verifier finds the checksum invalid and rx verification is on, no socket state/queue may change and nothing may be emitted. Part enforced_dhcp does the same on the DHCPv4 client's own receive path (Ethernet; a well-formed OFFER for the captured transaction is answered - control - and with 1-2 flipped bits must be neither answered nor reported).",
          "Independent one's-complement implementation in vkit::indep; cancelling double flips and structural damage are recognised and not claimed.",
          "DESIGN.md 3/C08"),
  "C09": ("model-based PBT: op sequences on UDP/ICMP/raw sockets vs queue models on wire and receive side, independent codecs",
@@ -54,8 +54,8 @@ CHECKS = {
          "Each case runs one case function borrowed from the other simulation-based checks (TCP worlds, scripted peers, datagram sockets, address table, fragmentation, DHCP, DNS, poll_at scenarios, ...) with vkit::indep::validate checking every frame handed to TxToken::consume: MTU, Ethernet/ARP fields, IPv4/IPv6 header consistency and checksums, extension/TLV structure, ICMP/NDISC/MLD/IGMP rules, UDP/TCP lengths, options and checksums, DHCP/DNS structure, and source-address legality against the interface's addresses at emission time.",
          "Trusts the independent decoders; 802.15.4 frames only size-checked here (decoded by C20); scenarios that bypass Node::poll are validated without the source-ownership rule.",
          "DESIGN.md 3/C10"),
- "C11": ("table oracle: exhaustive enumeration of the address-class table (270k cells) + random fill of free fields; independent encoder/decoder",
-         "Every cell of family x medium/L2 destination x IP source class x IP destination class x protocol x port relation x socket binding x raw x DNS is instantiated on a fresh interface with one valid packet built by the independent encoder and ingested by a single poll; rules R1-R5 (not addressed to us => no delivery/no answer; delivery matches the bound endpoint; no RST/ICMP error for non-unicast destination or source except the RFC-mandated Parameter Problem code 2; no error in answer to an error/RST; TCP to broadcast/multicast/loopback never changes socket state) are judged on socket queues/states and emitted frames. Exhaustive over the table in both tiers; 63 violation keys from 5 root causes fixed, 1 open (pinned by an existing unit test).",
+ "C11": ("table oracle: exhaustive enumeration of the address-class table (278k cells) + random fill of free fields; independent encoder/decoder",
+         "Every cell of family x medium/L2 destination x IP source class x IP destination class x protocol x port relation x socket binding x raw x DNS is instantiated on a fresh interface with one valid packet built by the independent encoder and ingested by a single poll; rules R1-R5 (not addressed to us => no delivery/no answer; delivery matches the bound endpoint; no RST/ICMP error for non-unicast destination or source except the RFC-mandated Parameter Problem code 2; no error in answer to an error/RST; TCP to broadcast/multicast/loopback never changes socket state) are judged on socket queues/states and emitted frames. Exhaustive over the table in both tiers; The table includes an IEEE 802.15.4 class without destination addressing from a foreign PAN, and the random fill sends DNS near-miss responses (right in everything but the destination port, or but the transaction id). 63 violation keys from 5 root causes fixed, 1 open (pinned by an existing unit test).",
          "Trusts vkit::indep encoder/decoder and the class table's reading of 'addressed to the interface'; 802.15.4 judged on ingress side only; one packet per fresh interface.",
          "DESIGN.md 3/C11"),
  "C12": ("round-trip PBT through two interfaces with independent reassembler + bounded-exhaustive permutations of <=4 fragments",
@@ -67,7 +67,7 @@ CHECKS = {
          "Armed-source labels are inferred from public getters; silent timers (TIME-WAIT expiry, SLAAC sync) only visible in the opt-in strict mode.",
          "DESIGN.md 3/C13"),
  "C20": ("differential/round-trip PBT: two 802.15.4 interfaces vs raw-IP twin, independent 802.15.4/6LoWPAN (FRAG, IPHC, NHC) codec both ways, bounded-exhaustive fragment permutations",
-         "UDP (all port classes), ICMPv6 echo and TCP between link-local/global/multicast addresses over 802.15.4 with extended/short addresses, hop limits, payload 0..4200, back-to-back datagrams under back-pressure, fragments permuted/duplicated (all permutations x single duplications for 2-4 fragments); every frame <= 127 octets and decoded by an independent decompressor into exactly the datagram the script defines; deliveries equal what was sent and what the raw-IP twin delivers, once or (beyond reassembler limits) not at all; an independent IPHC encoder feeds every legal compression mode incl. stateful contexts to the receiver; adversarial FRAG1/FRAGN/IPHC/NHC frames must not panic. 10 mutants killed (sub-agent report).",
+         "UDP (all port classes), ICMPv6 echo and TCP between link-local/global/multicast addresses over 802.15.4 with extended/short addresses, hop limits, payload 0..4200, back-to-back datagrams under back-pressure, fragments permuted/duplicated (all permutations x single duplications for 2-4 fragments); every frame <= 127 octets and decoded by an independent decompressor into exactly the datagram the script defines; deliveries equal what was sent and what the raw-IP twin delivers, once or (beyond reassembler limits) not at all; an independent IPHC encoder feeds every legal compression mode incl. stateful contexts to the receiver; adversarial FRAG1/FRAGN/IPHC/NHC frames must not panic; multicast destinations include the boundaries between the RFC 6282 8/32/48-bit/in-line forms. 10 mutants killed (sub-agent report).",
          "Trusts the independent RFC 4944/6282 codec (encoder and decoder cross-asserted) and the reference reassembler; frames carry no FCS; elided UDP checksums in fragmented datagrams are outside what the stack itself sends.",
          "DESIGN.md 3/C20"),
  "C14": ("model-based PBT (VecDeque model) + bounded-exhaustive op-sequence enumeration",
@@ -79,7 +79,7 @@ CHECKS = {
          "Legitimacy of a claim follows what the statement calls 'learned' from validated ARP/NDISC (a valid NA also counts for its IP source, as smoltcp's own tests pin); starvation of discovery by another socket is counted here and judged under C09.",
          "DESIGN.md 3/C16"),
  "C17": ("table-oracle PBT: one event at a time (ingress single / egress / API / time), allowed-transition table with guards from an independent sequence-space view",
-         "Up to 120 events per case over several connection life cycles; segments drawn around RCV.NXT, window edges, ISS+1, SND.NXT, FIN+1; every observed state change must be an RFC 9293 edge whose guard (exact ISS ack, in-order FIN, ack of own FIN, in-window RST, TIME-WAIT >= 10 s, configured timeout) holds. One open known finding (close() in SYN-RECEIVED).",
+         "Up to 120 events per case over several connection life cycles; segments drawn around RCV.NXT, window edges, ISS+1, SND.NXT, FIN+1; every observed state change must be an RFC 9293 edge whose guard (exact ISS ack, in-order FIN, ack of own FIN, in-window RST, TIME-WAIT >= 10 s, configured timeout) holds; part deep steers half of the events along the RFC's expected path so the random half meets the closing states; TIME-WAIT must also END: an egress pass with nothing to send, 10 s after entry / the last segment received in TIME-WAIT, must leave the socket CLOSED. One open known finding (close() in SYN-RECEIVED).",
          "Guards are necessary conditions from emitted segments and API calls; not judged while the socket's ISS is unobserved; peer never offers window scaling.",
          "DESIGN.md 3/C17"),
  "C15": ("exhaustive BFS over reachable states (bounded universe) + model-based PBT",
